@@ -301,22 +301,6 @@ theorem ret_step {ρ : QV.Env} {env : Front.Env} {σ : SEnv} (hinv : EnvInv ρ e
 
 /-! ### the body -/
 
-/-- a statement of the straight-line fragment: an assignment of a fragment expression that does not
-read its own target (`ast2ast` routes `a = a + 1` and every augmented assignment through the temporary
-`__a`) to a dot-free name other than `_ret`; a `return` of a fragment expression; an expression
-statement -/
-def stmtOK : Stmt → Bool
-  | .assign t e => goodName t && t != "_ret" && inFrag e && !mentions t e
-  | .ret e => inFrag e && !mentions "_ret" e
-  | .expr _ => true
-  | .unsupported _ => false
-
-/-- the straight-line fragment of `C01_body`: arguments `bool` / `Qint[w]` (`w ≠ 1`) with dot-free names
-other than `_ret`, return type `bool` / `Qint[w]`, every statement `stmtOK` -/
-def straightLine (p : Prog) : Bool :=
-  p.args.all (fun a => argTyOK a.2 && goodName a.1 && a.1 != "_ret") && argTyOK p.ret &&
-    p.body.all stmtOK
-
 theorem names_owned (ret : Ty) (hret : argTyOK ret = true) : ∀ x ∈ ret.names "_ret", Owned "_ret" x := by
   intro x hx
   cases ret with
